@@ -13,7 +13,7 @@ SPEC = {
     "claim": {
         "category": "exploration",
         "technique": "differential testing over generated format calls (rapidcheck byte-decoded structured generator, libFuzzer, a directed sweep): nine sinks compared with each other, with the reference rendering and with reference UTF-16/32 / Latin-1 transcoders; stream insertion against reference transcoding; stream extraction differentially against std::basic_string extraction on an identical stream",
-        "text": "Each generated format call (fields of every kind, literals with multi-unit characters, padding up to 400 so runs cross internal buffers, floating point, damaged calls) is sent to ST::format (default and assume_valid), the _stfmt literal, ST::printf(FILE*), ST::writef on char, wchar_t, char16_t and char32_t string streams and ST::format_latin_1; narrow sinks must be byte-identical and equal the modelled rendering, format_latin_1 must equal the reference Latin-1->UTF-8 transcoding, wide sinks the reference UTF-16/32 transcoding, and rejected calls must be rejected alike. ST::string values of every size class are inserted into the four stream types and compared with reference transcodings; token sequences (with width(), noskipws, std::ws and ill-formed units) are extracted in lock-step with std::basic_string extraction and must store the same token or throw ST::unicode_error exactly when the token fails the default validation, with equal stream state. After every ST::printf, however it ended, the FILE* is probed from a second thread (a stdio lock left behind is a violation). Both tiers run a second build with an unsigned plain char (-funsigned-char; a reduced number of generated cases and no enumerators in the quick tier).",
+        "text": "Each generated format call (fields of every kind, literals with multi-unit characters, padding up to 400 so runs cross internal buffers, floating point, damaged calls) is sent to ST::format (default and assume_valid), the _stfmt literal, ST::printf(FILE*), ST::writef on char, wchar_t, char16_t and char32_t string streams and ST::format_latin_1; narrow sinks must be byte-identical and equal the modelled rendering, format_latin_1 must equal the reference Latin-1->UTF-8 transcoding, wide sinks the reference UTF-16/32 transcoding, and rejected calls must be rejected alike. ST::string values of every size class are inserted into the four stream types and compared with reference transcodings; token sequences (with width(), noskipws, std::ws and ill-formed units) are extracted in lock-step with std::basic_string extraction and must store the same token or throw ST::unicode_error exactly when the token fails the default validation, with equal stream state. After every ST::printf, however it ended, the FILE* is probed from a second thread (a stdio lock left behind is a violation). Both tiers run a second build with an unsigned plain char (-funsigned-char; a reduced number of generated cases and no enumerators in the quick tier). One case in eight hands ST::printf a FILE* whose error indicator is already set; every case also formats an argument of a user-defined type whose format_type() itself calls ST::format and compares with the pieces formatted one by one (ST::format, ST::printf, ST::writef).",
         "level_note": "Sampled calls and streams; the directed sweep is complete over its stated grid only. One open finding (F17-1) is excluded by construction and reported as KNOWN-FINDING.",
     },
 }
